@@ -237,6 +237,10 @@ class CallMixin:
             return ModuleV(self.EXTERNAL_MODULES[name])
         if name in BUILTIN_NAMES or name in REG.predicates or name in REG.ufuncs:
             return FunV('builtin', qual=name)
+        if name in self.external_names:
+            return FunV('builtin', qual=name)
+        if name == 'utils':
+            return ModuleV('mouette.utils')
         # module-local, then unique global
         ci = self.index.resolve_class(name, st.module)
         if ci is not None:
@@ -263,6 +267,8 @@ class CallMixin:
             return FunV('builtin', qual=key)
         if m.name == 'mouette.config':
             return self.config_flag(attr, st)
+        if m.name == 'mouette.utils' and attr in self.external_names:
+            return FunV('builtin', qual=attr)
         if m.name == 'math' and attr == 'pi' or m.name == 'numpy' and attr == 'pi':
             from .numeric import PI as _PI
             st.assume(z3.And(_PI > z3.RealVal('3.14159'), _PI < z3.RealVal('3.1416')))
